@@ -109,7 +109,10 @@ func (f *flags) hit(role int, g int32) {
 	}
 }
 
-var gateNames = []string{"foc.upgrade", "ot.mid", "notify.write", "purge.delete"}
+var gateNames = []string{"foc.upgrade", "ot.mid", "notify.write", "purge.delete", "purge.offline"}
+
+// the first four are required for schedule replay; purge.offline (hooks/packet_gates-2.patch) is optional
+const baseGates = 4
 
 func gateIndex(name string) int32 {
 	for i, g := range gateNames {
@@ -149,7 +152,7 @@ func (r *replayer) gateHook(name string) {
 		return
 	}
 	role := roleLoop
-	if name == "purge.delete" {
+	if name == "purge.delete" || name == "purge.offline" {
 		role = rolePurge
 	}
 	r.f.hit(role, g)
@@ -500,7 +503,7 @@ func runSchedule(sc *schedule, statePass bool) *replayResult {
 		}
 		div, stuck := r.step(i, s, &nextFrame)
 		if s.P == "purge" {
-			purgeAtGate = s.Until == "purge.delete" && div == "" && stuck == ""
+			purgeAtGate = (s.Until == "purge.delete" || s.Until == "purge.offline") && div == "" && stuck == "" // scan done, delete pending
 		}
 		if div != "" || stuck != "" {
 			res.Diverged, res.Stuck = div, stuck
@@ -601,14 +604,14 @@ func replay(path string, stdout *os.File) {
 	fmt.Fprintf(stdout, `{"gates":true,"schedules":%d}`+"\n", n)
 }
 
-// gatesPresent runs a tiny sequential scenario and reports whether all four gates were passed.
-func gatesPresent() bool {
+// gatesSeen runs a tiny sequential scenario and reports which gates were passed.
+func gatesSeen() map[string]bool {
+	seen := map[string]bool{}
 	e, err := newEnv(0)
 	if err != nil {
-		return false
+		return seen
 	}
 	defer os.RemoveAll(e.dir)
-	seen := map[string]bool{}
 	packet.VerifGate = func(name string) { seen[name] = true }
 	defer func() { packet.VerifGate = nil }()
 	b := vh.FrameIP4UDP(e.mac(1), vh.RouterMAC, e.lan(1), e.u.Cfg.RouterIP, 40000, 123, []byte("probe"))
@@ -617,12 +620,28 @@ func gatesPresent() bool {
 	}
 	e.s.VerifPurge(time.Now())
 	go e.s.Close()
-	for _, g := range gateNames {
+	return seen
+}
+
+// gatesPresent: the four gates schedule replay needs.
+func gatesPresent() bool {
+	seen := gatesSeen()
+	for _, g := range gateNames[:baseGates] {
 		if !seen[g] {
 			return false
 		}
 	}
 	return true
+}
+
+func gatesReport() string {
+	seen := gatesSeen()
+	base := true
+	for _, g := range gateNames[:baseGates] {
+		base = base && seen[g]
+	}
+	b, _ := json.Marshal(map[string]bool{"base": base, "purge.offline": seen["purge.offline"]})
+	return string(b)
 }
 
 var _ = netip.Addr{}
